@@ -116,7 +116,7 @@ def _shrink_c14(best, attempt, budget):
     with_ops = _shrink_ops(best, attempt, budget)
     # simplify individual ops
     for i in range(len(best["trace"]["ops"])):
-        for key in ("cancel", "dump_fault", "dump", "nodump_args", "settings_extra", "scribble"):
+        for key in ("cancel", "dump_fault", "dump", "nodump_args", "settings_extra", "scribble", "in_handler"):
             ops = copy.deepcopy(best["trace"]["ops"])
             if i < len(ops) and key in ops[i]:
                 del ops[i][key]
